@@ -1,1 +1,404 @@
-fn main(){}
+//! physim — deterministic simulation of the environment of the page-table mappers
+//! (physical memory, frame allocator with fault injection, MMU walker, TLB).
+//! Decides C01 C02 C09 C10 C11(a,b) C20(b).  See /verif/DESIGN.md §3.
+
+mod alloc;
+mod exec;
+mod gen;
+mod model;
+mod seams;
+mod spec;
+mod steps;
+
+use exec::{run_replay, Stats};
+use serde_json::json;
+use std::io::{Read, Write};
+use steps::{Replay, Step, Violation};
+
+fn arg<'a>(args: &'a [String], name: &str) -> Option<&'a str> {
+    args.iter().position(|a| a == name).and_then(|i| args.get(i + 1)).map(|s| s.as_str())
+}
+
+fn run_seed(base: u64, i: u64) -> u64 {
+    base.wrapping_mul(1_000_003).wrapping_add(i)
+}
+
+#[derive(Debug, Clone, PartialEq, Eq)]
+enum Verdict {
+    Pass,
+    Viol(Violation),
+    Crash(String),
+}
+
+/// Execute a replay in a forked child so that a wild access of a broken system under test cannot
+/// take the minimiser down.
+fn run_isolated(rp: &Replay) -> Verdict {
+    unsafe {
+        let mut fds = [0i32; 2];
+        if libc::pipe(fds.as_mut_ptr()) != 0 {
+            eprintln!("HARNESS-ERROR: pipe");
+            std::process::exit(2);
+        }
+        let pid = libc::fork();
+        if pid < 0 {
+            eprintln!("HARNESS-ERROR: fork");
+            std::process::exit(2);
+        }
+        if pid == 0 {
+            libc::close(fds[0]);
+            // the child's stderr carries FATAL-FAULT lines; route them into the pipe too
+            libc::dup2(fds[1], 2);
+            let mut st = Stats::default();
+            let v = run_replay(rp, &mut st);
+            let s = match v {
+                None => "PASS\n".to_string(),
+                Some(v) => format!("VIOL {}\n", serde_json::to_string(&v).unwrap()),
+            };
+            libc::write(fds[1], s.as_ptr() as *const libc::c_void, s.len());
+            libc::_exit(0);
+        }
+        libc::close(fds[1]);
+        let mut f = <std::fs::File as std::os::fd::FromRawFd>::from_raw_fd(fds[0]);
+        let mut out = String::new();
+        let _ = f.read_to_string(&mut out);
+        let mut status = 0i32;
+        libc::waitpid(pid, &mut status, 0);
+        let exited_ok = libc::WIFEXITED(status) && libc::WEXITSTATUS(status) == 0;
+        for line in out.lines() {
+            if exited_ok && line == "PASS" {
+                return Verdict::Pass;
+            }
+            if exited_ok {
+                if let Some(j) = line.strip_prefix("VIOL ") {
+                    if let Ok(v) = serde_json::from_str::<Violation>(j) {
+                        return Verdict::Viol(v);
+                    }
+                }
+            }
+        }
+        let code = if libc::WIFEXITED(status) { libc::WEXITSTATUS(status) } else { 128 + libc::WTERMSIG(status) };
+        if code == 2 {
+            eprintln!("HARNESS-ERROR in isolated run: {out}");
+            std::process::exit(2);
+        }
+        Verdict::Crash(format!("exit {code}: {}", out.lines().find(|l| l.starts_with("FATAL-FAULT")).unwrap_or("")))
+    }
+}
+
+fn same_failure(want: &Verdict, got: &Verdict) -> bool {
+    match (want, got) {
+        (Verdict::Viol(a), Verdict::Viol(b)) => a.oracle == b.oracle && a.properties == b.properties,
+        (Verdict::Crash(_), Verdict::Crash(_)) => true,
+        _ => false,
+    }
+}
+
+fn crash_violation(msg: &str, step: usize) -> Violation {
+    Violation {
+        properties: vec!["C01".into(), "C02".into(), "C09".into(), "C10".into(), "C20".into()],
+        oracle: "fatal-fault".into(),
+        step,
+        detail: format!("the system under test made an access the simulated machine cannot resolve ({msg})"),
+    }
+}
+
+/// Delta debugging over the step list, then argument / configuration simplification.
+fn minimise(mut rp: Replay, want: &Verdict) -> Replay {
+    let orig = rp.steps.len();
+    let mut tries = 0u32;
+    let mut test = |cand: &Replay, tries: &mut u32| -> bool {
+        *tries += 1;
+        *tries < 4000 && same_failure(want, &run_isolated(cand))
+    };
+    // truncate after the failing step
+    if let Verdict::Viol(v) = want {
+        if v.step + 1 < rp.steps.len() {
+            let mut c = rp.clone();
+            c.steps.truncate(v.step + 1);
+            if test(&c, &mut tries) {
+                rp = c;
+            }
+        }
+    }
+    // ddmin
+    let mut n = 2usize;
+    while rp.steps.len() >= 2 {
+        let len = rp.steps.len();
+        let chunk = (len + n - 1) / n;
+        let mut reduced = false;
+        let mut start = 0;
+        while start < len {
+            let end = (start + chunk).min(len);
+            let mut c = rp.clone();
+            c.steps.drain(start..end);
+            if !c.steps.is_empty() && test(&c, &mut tries) {
+                rp = c;
+                n = (n - 1).max(2);
+                reduced = true;
+                break;
+            }
+            start = end;
+        }
+        if !reduced {
+            if chunk == 1 {
+                break;
+            }
+            n = (n * 2).min(len);
+        }
+    }
+    // configuration
+    let cfg_edits: Vec<Box<dyn Fn(&mut Replay)>> = vec![
+        Box::new(|r| r.config.enumerate_faults = false),
+        Box::new(|r| r.config.enumerate_ranges = false),
+        Box::new(|r| r.config.tlb = false),
+        Box::new(|r| r.config.alloc.exhaust_after = None),
+        Box::new(|r| r.config.alloc.policy = steps::Policy::Ascending),
+        Box::new(|r| {
+            r.config.pcide = false;
+            r.config.cr3_low = 0
+        }),
+        Box::new(|r| r.config.view = steps::View::Mapped),
+    ];
+    for e in cfg_edits {
+        let mut c = rp.clone();
+        e(&mut c);
+        if c != rp && test(&c, &mut tries) {
+            rp = c;
+        }
+    }
+    // arguments
+    for i in 0..rp.steps.len() {
+        let variants: Vec<Step> = match &rp.steps[i] {
+            Step::Map { size, page, frame, flags, pflags, fail } => {
+                let mut v = vec![];
+                if *fail != 0 {
+                    v.push(Step::Map { size: *size, page: *page, frame: *frame, flags: *flags, pflags: pflags.clone(), fail: 0 });
+                }
+                if *flags != 1 {
+                    v.push(Step::Map { size: *size, page: *page, frame: *frame, flags: 1, pflags: pflags.clone(), fail: *fail });
+                    v.push(Step::Map { size: *size, page: *page, frame: *frame, flags: *flags & 0xfff, pflags: pflags.clone(), fail: *fail });
+                }
+                if pflags.is_some() {
+                    v.push(Step::Map { size: *size, page: *page, frame: *frame, flags: *flags, pflags: None, fail: *fail });
+                    v.push(Step::Map { size: *size, page: *page, frame: *frame, flags: *flags, pflags: Some("0x1".into()), fail: *fail });
+                }
+                v
+            }
+            Step::IdentityMap { size, frame, flags, fail } => {
+                let mut v = vec![];
+                if *fail != 0 {
+                    v.push(Step::IdentityMap { size: *size, frame: *frame, flags: *flags, fail: 0 });
+                }
+                if *flags != 1 {
+                    v.push(Step::IdentityMap { size: *size, frame: *frame, flags: 1, fail: *fail });
+                }
+                v
+            }
+            Step::UpdateFlags { size, page, flags } if *flags != 1 => vec![Step::UpdateFlags { size: *size, page: *page, flags: 1 }, Step::UpdateFlags { size: *size, page: *page, flags: *flags & 0xfff }],
+            Step::SetFlagsP { level, size, page, flags } if *flags != 3 => vec![Step::SetFlagsP { level: *level, size: *size, page: *page, flags: 3 }],
+            Step::CleanUpRange { .. } => vec![Step::CleanUp],
+            _ => vec![],
+        };
+        for v in variants {
+            let mut c = rp.clone();
+            c.steps[i] = v;
+            if test(&c, &mut tries) {
+                rp = c;
+            }
+        }
+    }
+    rp.minimised_from_steps = Some(orig);
+    rp
+}
+
+fn write_replay(path: &str, rp: &Replay) {
+    let s = serde_json::to_string_pretty(rp).unwrap();
+    if let Some(dir) = std::path::Path::new(path).parent() {
+        let _ = std::fs::create_dir_all(dir);
+    }
+    std::fs::write(path, s).unwrap_or_else(|e| {
+        eprintln!("HARNESS-ERROR: cannot write {path}: {e}");
+        std::process::exit(2);
+    });
+}
+
+fn read_replay(path: &str) -> Replay {
+    let s = std::fs::read_to_string(path).unwrap_or_else(|e| {
+        eprintln!("HARNESS-ERROR: cannot read {path}: {e}");
+        std::process::exit(2);
+    });
+    serde_json::from_str(&s).unwrap_or_else(|e| {
+        eprintln!("HARNESS-ERROR: cannot parse {path}: {e}");
+        std::process::exit(2);
+    })
+}
+
+fn check_address_space() {
+    // P4 slots 1..=160 (recursive view) and 176..=239 (offset window) must be free of host mappings
+    let maps = std::fs::read_to_string("/proc/self/maps").unwrap_or_default();
+    for line in maps.lines() {
+        let range = line.split_whitespace().next().unwrap_or("");
+        let mut it = range.split('-');
+        let (a, b) = (it.next().unwrap_or("0"), it.next().unwrap_or("0"));
+        let (a, b) = (u64::from_str_radix(a, 16).unwrap_or(0), u64::from_str_radix(b, 16).unwrap_or(0));
+        if b == 0 || a >> 47 != 0 {
+            continue;
+        }
+        let (sa, sb) = (a >> 39, (b - 1) >> 39);
+        let hit = |lo: u64, hi: u64| sa <= hi && sb >= lo;
+        if hit(1, 160) || hit(176, 239) {
+            eprintln!("HARNESS-ERROR: host mapping {range} lies in a P4 slot reserved for the simulated views");
+            std::process::exit(2);
+        }
+    }
+}
+
+fn stats_json(st: &Stats) -> serde_json::Value {
+    json!({
+        "runs": st.runs, "steps": st.steps, "calls": st.calls, "probe_translations": st.probe_translations,
+        "distinct": st.distinct.len(),
+        "probes": st.probes, "cells": st.cells,
+        "fault_kinds": {"alloc_fail_1st": st.fired[0], "alloc_fail_2nd": st.fired[1], "alloc_fail_3rd": st.fired[2], "alloc_fail_all": st.fired[3], "alloc_exhausted": st.fired[4]},
+        "recycled_frames": st.recycled, "views": st.views, "filtered_misuse_steps": st.filtered,
+        "mmu_faults_resolved": st.mmu_faults, "trapped_instructions": st.trapped, "deallocations": st.deallocs,
+        "cleanup_model_agree": st.cleanup_model_agree, "cleanup_model_differ": st.cleanup_model_differ,
+        "enumerated_failure_masks": st.enum_masks, "enumerated_ranges": st.enum_ranges,
+        "tlb_fills": st.tlb_fills, "tlb_checks": st.tlb_checks,
+    })
+}
+
+fn main() {
+    let args: Vec<String> = std::env::args().collect();
+    let cmd = args.get(1).map(|s| s.as_str()).unwrap_or("");
+    check_address_space();
+    match cmd {
+        "emit" => {
+            let seed: u64 = args[2].parse().unwrap();
+            let prop = args.get(3).map(|s| s.as_str()).unwrap_or("C01");
+            println!("{}", serde_json::to_string_pretty(&gen::gen_replay(seed, prop)).unwrap());
+        }
+        "replay" => {
+            let rp = read_replay(&args[2]);
+            let isolated = args.iter().any(|a| a == "--isolated");
+            let v = if isolated {
+                run_isolated(&rp)
+            } else {
+                let mut st = Stats::default();
+                match run_replay(&rp, &mut st) {
+                    None => Verdict::Pass,
+                    Some(v) => Verdict::Viol(v),
+                }
+            };
+            match v {
+                Verdict::Pass => {
+                    println!("PASS");
+                    std::process::exit(0)
+                }
+                Verdict::Viol(v) => {
+                    println!("FAIL {}", serde_json::to_string(&v).unwrap());
+                    std::process::exit(1)
+                }
+                Verdict::Crash(m) => {
+                    println!("FAIL {}", serde_json::to_string(&crash_violation(&m, 0)).unwrap());
+                    std::process::exit(1)
+                }
+            }
+        }
+        "minimise" => {
+            let mut rp = read_replay(&args[2]);
+            let out = &args[3];
+            let want = run_isolated(&rp);
+            if want == Verdict::Pass {
+                eprintln!("HARNESS-ERROR: {} does not fail when replayed", args[2]);
+                std::process::exit(2);
+            }
+            let from = rp.steps.len();
+            rp = minimise(rp, &want);
+            // final confirmation in a fresh child
+            let got = run_isolated(&rp);
+            if !same_failure(&want, &got) {
+                eprintln!("HARNESS-ERROR: minimised replay does not reproduce ({got:?})");
+                std::process::exit(2);
+            }
+            rp.violation = match got {
+                Verdict::Viol(v) => Some(v),
+                Verdict::Crash(m) => Some(crash_violation(&m, rp.steps.len().saturating_sub(1))),
+                Verdict::Pass => None,
+            };
+            write_replay(out, &rp);
+            println!("MINIMISED {} -> {} steps: {}", from, rp.steps.len(), out);
+        }
+        "explore" => {
+            let prop = arg(&args, "--prop").unwrap_or("C01").to_string();
+            let base: u64 = arg(&args, "--seed").and_then(|s| s.parse().ok()).unwrap_or(1);
+            let start: u64 = arg(&args, "--start").and_then(|s| s.parse().ok()).unwrap_or(0);
+            let count: u64 = arg(&args, "--count").and_then(|s| s.parse().ok()).unwrap_or(100);
+            let stride: u64 = arg(&args, "--stride").and_then(|s| s.parse().ok()).unwrap_or(1);
+            let deadline: f64 = arg(&args, "--deadline").and_then(|s| s.parse().ok()).unwrap_or(1e9);
+            let out = arg(&args, "--out").unwrap_or("/dev/stdout").to_string();
+            let rdir = arg(&args, "--replay-dir").unwrap_or("/verif/replays").to_string();
+            let max_viol: usize = arg(&args, "--max-violations").and_then(|s| s.parse().ok()).unwrap_or(3);
+            let log = arg(&args, "--event-log").map(|s| s.to_string());
+            let cur_path = format!("{out}.cur");
+            let t0 = std::time::Instant::now();
+            let mut st = Stats::default();
+            let mut viols: Vec<serde_json::Value> = vec![];
+            let mut samples: Vec<serde_json::Value> = vec![];
+            let mut logf = log.map(|p| std::fs::File::create(p).unwrap());
+            let mut done = 0u64;
+            let mut k = start;
+            while done < count {
+                if t0.elapsed().as_secs_f64() > deadline {
+                    break;
+                }
+                let seed = run_seed(base, k);
+                let _ = std::fs::write(&cur_path, format!("{seed}"));
+                let rp = gen::gen_replay(seed, &prop);
+                if samples.len() < 3 && rp.steps.len() <= 12 {
+                    samples.push(json!({"seed": seed, "config": rp.config, "steps": rp.steps}));
+                }
+                let before = (st.steps, st.calls, st.mmu_faults, st.trapped, st.deallocs);
+                let v = run_replay(&rp, &mut st);
+                if let Some(f) = logf.as_mut() {
+                    // deterministic event summary of the run (for the determinism diff)
+                    let _ = writeln!(
+                        f,
+                        "{seed} steps={} calls={} mmu={} traps={} deallocs={} distinct={} viol={}",
+                        st.steps - before.0,
+                        st.calls - before.1,
+                        st.mmu_faults - before.2,
+                        st.trapped - before.3,
+                        st.deallocs - before.4,
+                        st.distinct.len(),
+                        v.as_ref().map(|v| format!("{}@{}:{}", v.oracle, v.step, v.detail)).unwrap_or_default()
+                    );
+                }
+                if let Some(v) = v {
+                    let mut rp = rp;
+                    rp.violation = Some(v.clone());
+                    let path = format!("{rdir}/physim-{seed}.json");
+                    write_replay(&path, &rp);
+                    viols.push(json!({"seed": seed, "replay": path, "violation": v}));
+                    if viols.len() >= max_viol {
+                        done += 1;
+                        break;
+                    }
+                }
+                done += 1;
+                k += stride;
+            }
+            let _ = std::fs::remove_file(&cur_path);
+            let res = json!({
+                "property": prop, "base_seed": base, "start": start, "stride": stride, "runs_done": done,
+                "wall_s": t0.elapsed().as_secs_f64(), "stats": stats_json(&st), "violations": viols, "samples": samples,
+                "distinct_keys": st.distinct.iter().map(|k| format!("{:?}", k)).collect::<Vec<_>>(),
+            });
+            std::fs::write(&out, serde_json::to_string(&res).unwrap()).unwrap();
+            std::process::exit(if viols.is_empty() { 0 } else { 1 });
+        }
+        _ => {
+            eprintln!("usage: physim explore|replay|minimise|emit ...");
+            std::process::exit(2);
+        }
+    }
+}
